@@ -515,9 +515,16 @@ func (e *Env) quant(x *SExpr) Val {
 			if !ok || len(f) == 0 {
 				return e.fail("bad trigger %s", tr.String())
 			}
+			// solvers reject patterns containing boolean structure
+			if strings.Contains(f[0], "(ite ") || strings.Contains(f[0], "(and ") || strings.Contains(f[0], "(not ") || strings.Contains(f[0], "(or ") {
+				ts = nil
+				break
+			}
 			ts = append(ts, f[0])
 		}
-		body = fmt.Sprintf("(! %s :pattern (%s))", body, strings.Join(ts, " "))
+		if len(ts) > 0 {
+			body = fmt.Sprintf("(! %s :pattern (%s))", body, strings.Join(ts, " "))
+		}
 	}
 	return boolVal(fmt.Sprintf("(%s (%s) %s)", x.Op, strings.Join(binders, " "), body))
 }
